@@ -96,6 +96,12 @@ def landscape_centre(kind, geo, D):
 
 
 def geo_value(kind, geo, D, x):
+    if kind == "const":
+        return 1.0
+    if kind == "sphere_big":
+        return 1e8 * geo_value("sphere_in", geo, D, x)
+    if kind == "sphere_small":
+        return 1e-8 * geo_value("sphere_in", geo, D, x)
     lb, ub, plb, pub, logc = geometry(geo, D)
     z = to_z(x, logc)[0]
     c = landscape_centre(kind, geo, D)
